@@ -321,6 +321,7 @@ func checkC06(c *Check) {
 	}
 	// the identifiers of a login leave in a response object that no other check can reach
 	responseFreshPerCheck(c, "C06.R3", R)
+	headersOwnBacking(c, "C06.R3", R)
 	if c.Tier == "thorough" && P.Whole {
 		// follow oauth2.GenerateVerifier into the dependency
 		c.extra["verifier_followed_into_dependency"] = true
